@@ -415,6 +415,14 @@ def run_concrete(fn, variant, model=None, seed=0, max_runs=20000):
         except Unsupported as e:
             status = 'unsupported: %s' % e
         except Exception as e:   # exception from the real code under this input
+            import traceback as _tb
+            last = _tb.extract_tb(e.__traceback__)[-1]
+            if isinstance(e, (KeyError, AttributeError)) and (os.sep + 'contracts' + os.sep) in last.filename:
+                # the harness itself could not reach what it wanted to look at (an executor's private cache, an attribute): that is
+                # a limit of the harness, not behaviour of the code under contract
+                status = 'unsupported: harness could not observe (%s: %s)' % (type(e).__name__, e)
+                nruns += 1
+                break
             status = 'exception'
             failures.append({'check': 'no-exception', 'exception': '%s: %s' % (type(e).__name__, e),
                              'drawn': dict(ctx.drawn), 'choices': [(c[0], c[2]) for c in ctx.choices[:ctx.choice_pos]]})
